@@ -27,7 +27,7 @@ class Path:
 
 class Tabler:
     def __init__(self, namer=None, effect_namer=None, max_paths=4000):
-        self.namer = namer or (lambda n: core.fingerprint(n, 5))
+        self.namer = namer or (lambda n: None if core.strip(n).get("k") == "LetExpr" else core.fingerprint(n, 5))
         self.effect_namer = effect_namer or (lambda n: core.fingerprint(n, 5))
         self.max_paths = max_paths
 
@@ -49,7 +49,9 @@ class Tabler:
             t2, f2 = self.cond(n["r"])
             return t1 + [a + b for a in f1 for b in t2], [a + b for a in f1 for b in f2]
         if k == "LetExpr":
-            a = self.namer(n["init"]) + " is " + core.pat_str(n["pat"]) if self.namer(n) is None else self.namer(n)
+            a = self.namer(n)
+            if a is None:
+                a = (self.namer(n["init"]) or core.fingerprint(n["init"], 5)) + " is " + core.pat_str(n["pat"])
             return [((a, True),)], [((a, False),)]
         if k == "Lit" and n["lit"]["lk"] == "bool":
             return ([()], []) if n["lit"]["v"] else ([], [()])
